@@ -78,7 +78,8 @@ def gen_tree(rnd, nfiles=3, stmts=(0, 12), structured=False, idclass="none", fra
             nokvp = directives and structured and rnd.random() < 0.25
             if rid is not None:
                 if structured and not nokvp:
-                    kv_ref = ("valid", str(rid), rnd.randrange(0, f["nkv"] + 1))
+                    rtxt = str(rid) if (rnd.random() > 0.15 or rid > 99999) else "%0*d" % (rnd.choice([2, 5, 10]), rid)
+                    kv_ref = ("valid", rtxt, rnd.randrange(0, f["nkv"] + 1))
                 else:
                     f["ref"] = "valid"
             if nokvp:
